@@ -1,7 +1,9 @@
-"""C12 -- spline construction, concatenation and cropping preserve the curve (structural clauses S1..S6)."""
-import astlib as A
-import fe
-import splines
+"""C12 -- spline construction, concatenation and cropping preserve the curve.
+
+The member functions of smooth::Spline are abstractly executed (engine M, props/splinem.py) on abstract spline states and the curve
+denoted by the resulting state is compared with the documented one (rules M1..M6); the Bernstein identity that makes the
+constant-velocity scaling T/K right is discharged by static_assert (S3b); integrate_absolute_polynomial is C20's rule I1."""
+import splinem
 import tables
 import wit
 
@@ -19,34 +21,17 @@ def s3_witnesses():
 
 def check(rep, tier, replay=None):
     rep.explanations.append(
-        "C12: rules on the syntax tree of Spline's members: lock-step of the five per-segment vectors, source/result index frames in "
-        "crop, degree-generic constant-velocity scaling (with the Bernstein identity discharged by static_assert), outputs defined on "
-        "every path, chain-rule factors by dimension analysis, slot-for-slot copy in concat.")
-    rep.trusted.update(["clang++-16 front end", "lib/pe.py identity testing of index/scale expressions over exact rationals"])
-    rep.assumptions.append("numerical agreement of concatenated/cropped curves and arclength are not decided")
-    d = fe.ast_dumps(["Spline", "cspline_eval", "kBasisFunction"])
-    idx = A.index(d["Spline"])
-    idx_cs = A.index(d["cspline_eval"])
-    rep.unit("umbrella TU filtered Spline / cspline_eval / kBasisFunction")
-    splines.check_s1(rep, idx)
-    splines.check_s2(rep, idx)
-    splines.check_s3(rep, idx)
-    # the basis used by Spline is the Bernstein cumulative basis
-    kb = [x for x in A.index(d["kBasisFunction"]) if x.qname.endswith("kBasisFunction") and x.pattern]
-    okb = bool(kb) and "polynomial_cumulative_basis<PolynomialBasis::Bernstein,K,double>()" in A.ntext(kb[0].node)
-    rep.rule("S3b", "Spline evaluates with the Bernstein cumulative basis; sum_i Bcum_i(u) = K*u", minimum=7)
-    rep.instance("S3b", "kBasisFunction", "is-bernstein-cumulative", ok=okb, sample={"text": A.ntext(kb[0].node)[:120] if kb else None})
-    if not okb:
-        rep.broke("kBasisFunction is no longer polynomial_cumulative_basis<Bernstein,K,double>(); S3 needs re-derivation")
-    tables.run(rep, "S3b", s3_witnesses(), "Spline evaluates with the Bernstein cumulative basis; sum_i Bcum_i(u) = K*u", 7)
-    splines.check_s4(rep, idx, idx_cs, ["Spline::operator()"])
-    splines.check_s5_spline(rep, idx)
-    splines.check_s5_crop(rep, idx)
-    splines.check_s6(rep, idx)
-    splines.check_s7(rep, idx)
-    splines.check_s8(rep, idx)
-    splines.check_s9(rep, idx)
-    splines.check_s10(rep, idx)
-    # arclength sums integrate_absolute_polynomial over the segments (S8 decides the bounds and integrand; the helper itself is C20's rule I1)
+        "C12: Spline's constructors, operator(), crop, concat_*, make_local and arclength are abstractly executed on abstract spline states (free-group "
+        "poses, opaque control velocities, exact rational knot times); the curve denoted by the resulting state -- value, velocity and acceleration on "
+        "every segment, plus the state invariant -- is compared with the curve the operation documents.  The verdict depends on the effect of the "
+        "statements on the abstract state, not on their spelling.")
+    rep.trusted.update(["clang++-16 front end", "lib/mach.py (abstract machine) and its models of std::vector / optional outputs",
+                        "contract of utils::binary_interval_search (decided by C20/I2)", "cspline_eval_vs as an opaque segment evaluator (decided by C11)"])
+    rep.assumptions.append("bounded abstract execution: splines of 0, 1 and 3 segments (uncropped and pre-cropped), degrees 0..5, rational sample times incl. knots and "
+                           "out-of-range arguments; rounding is not decided")
+    rep.unit("umbrella TU filtered Spline / BasisFunction")
+    splinem.check(rep, tier)
+    tables.run(rep, "S3b", s3_witnesses(), "sum_i Bcum_i(u) = K*u for the Bernstein cumulative basis (makes (T/K) v the constant-velocity control velocity)", 6)
+    # arclength sums integrate_absolute_polynomial over the segments (M6 decides bounds and integrand; the helper itself is C20's rule I1)
     import c20
     c20.check_i1(rep)
